@@ -2,6 +2,7 @@ package checks
 
 import (
 	"fmt"
+	"hash/fnv"
 	"os"
 	"regexp"
 	"sort"
@@ -21,11 +22,27 @@ func chainWorkload(seed int64, tier string, links []string, nPairs, nLong, maxLe
 		chains = append(chains, gen.Chain{ID: id, Links: l})
 		id++
 	}
+	if only := os.Getenv("VERIF_ONLY_LINKS"); only != "" {
+		// development aid: just these links, each alone
+		for _, l := range strings.Split(only, ",") {
+			add([]string{l})
+		}
+		return chains
+	}
 	for _, l := range links {
 		add([]string{l})
 	}
+	// sink forms (deferred, in a goroutine, in a loop, inside a callback invoked by user code / by the standard
+	// library): directly after the source, and behind a value link, a call link and a struct link
+	if nPairs > 0 && len(links) > 60 {
+		for _, f := range gen.SinkFormNames() {
+			add([]string{f})
+			for _, l := range []string{"concat", "idcall", "structfield"} {
+				add([]string{l, f})
+			}
+		}
+	}
 	// fixed (seed-independent) sample of ordered pairs
-	fr := core.NewRNG(0, "pairs")
 	n := len(links)
 	if nPairs >= n*n {
 		for _, a := range links {
@@ -34,14 +51,17 @@ func chainWorkload(seed int64, tier string, links []string, nPairs, nLong, maxLe
 			}
 		}
 	} else {
-		seen := map[[2]int]bool{}
-		for len(seen) < nPairs {
-			a, b := fr.Intn(n), fr.Intn(n)
-			if seen[[2]int{a, b}] {
-				continue
+		// membership of a pair depends only on the two names (not on the size of the library), so that adding links
+		// adds pairs but never reshuffles the existing sample: rate = nPairs / 220^2
+		thr := uint64(float64(nPairs) / 48400.0 * float64(1<<32))
+		for _, a := range links {
+			for _, b := range links {
+				h := fnv.New64a()
+				_, _ = h.Write([]byte("pair:" + a + ">" + b))
+				if (h.Sum64()>>7)&0xffffffff < thr {
+					add([]string{a, b})
+				}
 			}
-			seen[[2]int{a, b}] = true
-			add([]string{links[a], links[b]})
 		}
 	}
 	// Seed-dependent longer chains draw from the links that take part in no listed pair finding: the closure family
@@ -94,10 +114,10 @@ func C01(tier string) {
 	var chains []gen.Chain
 	cfgs := StdCfgs(false)
 	if tier == "thorough" {
-		chains = chainWorkload(run.SeedV, tier, links, 4000, 1500, 8)
+		chains = chainWorkload(run.SeedV, tier, links, 3000, 500, 8)
 		cfgs = StdCfgs(true)
 	} else {
-		chains = chainWorkload(run.SeedV, tier, links, 350, 150, 6)
+		chains = chainWorkload(run.SeedV, tier, links, 600, 150, 6)
 		cfgs = []ChainCfg{cfgs[0], cfgs[3], cfgs[4], cfgs[6]} // fs0-od0-rw1, fs0-od1-rw0, fs1-od0-rw1, fs1-od1-rw1
 	}
 	if tier == "triage" {
